@@ -408,5 +408,10 @@ Definition agree_node (name : str) (x : fin) (members : node) (o : res (option (
          end
   end.
 
-Definition agree_name_refused (name : str) (e : err) : bool :=
-  match name_refusal name with Some e' => err_eqb e e' | None => false end.
+(* add_file(blob, name): the file name is written first (create "Data", delete the member called like the file), so a refused
+   name wins over a refused content (not bytes: FilenameData.values setter; empty: np.void) *)
+Definition blob_add (name : str) (x : fin) : res bytes :=
+  match name_refusal name with Some e => Err e | None => blob_store x end.
+
+Definition agree_blob_refused (name : str) (x : fin) (e : err) : bool :=
+  match blob_add name x with Err e' => err_eqb e e' | Ok _ => false end.
